@@ -7,7 +7,9 @@ OUTSIDE = ["torn single writes (a write is atomic in the model)", "that each str
            "the 18-stream sequence itself (driven in the dump() skeleton harnesses)"]
 ASSUMPTIONS = ["a crash is modelled as the destination silently dropping every call from a symbolic index on", "stream types are non-zero"]
 L = {"extend_with": 60, "ArrDest": 80}
+SK = {"extend_with": 60, "ArrDest": 660, "MINIDUMP_EXCEPTION": 20, "alloc_from_array": 8}
 HARNESSES = [
+    H("c19_dump::c10_dump_crash_anywhere", desc="the real 18-stream generate_dump (modelled section writers): destination dies at a symbolic call", loops=SK, timeout=3000, est_gb=16, mem_gb=34, fs_array=1024),
     H("c09_dir_section::c10_crash_two_streams", loops=L, desc="crash anywhere in a 2-stream dump"),
     H("c09_dir_section::c10_crash_three_streams", loops=L, desc="crash anywhere in a 3-stream dump", tier="thorough"),
     H("c09_dir_section::c10_crash_aux_flush", loops=L, desc="crash anywhere, with an entry-less flush between streams"),
